@@ -40,3 +40,62 @@ def tier2(tier, rng):
             yield {"h": h, "w": w, "grid": g, "pivot": [0, 0]}
             if th:
                 yield {"h": h, "w": w, "grid": g, "pivot": [h - 1, w - 1]}
+
+
+TIER1 = ("Simpleloop", "solve_simpleloop_model")
+
+
+def tier1_problems(tier, rng):
+    """program-capture tie: every 0/1 layout and every pivot of the boards with <= 4 cells, a sample (thorough: all) of
+    the layouts x pivots of the boards with 5..6 cells (both orientations), layouts with entries other than 0/1 (any
+    non-zero entry is a black cell), random layouts on larger and non-square boards (up to 7x7, 1xN, Nx1) with pivots in
+    the corners / on the rim / inside, and malformed problems: boards without cells (height or width <= 0: ValueError,
+    both negative: IndexError), a pivot outside the board (IndexError beyond [-h, h) x [-w, w); a negative coordinate
+    inside that range is accepted by the Python - it equals no cell and indexes is_passed from the end), trailing cells /
+    rows of `blocked` missing (IndexError, except when the only missing cell is the pivot, which is never read)"""
+    th = tier == "thorough"
+
+    def pivots(h, w):
+        return [[py, px] for py in range(h) for px in range(w)]
+
+    for (h, w) in [(1, 1), (1, 2), (2, 1), (1, 3), (3, 1), (2, 2), (1, 4), (4, 1)]:
+        for g in L.all_grids(h, w, [0, 1]):
+            for pv in pivots(h, w):
+                yield {"h": h, "w": w, "grid": g, "pivot": pv}
+    for (h, w) in [(1, 5), (5, 1), (2, 3), (3, 2), (1, 6), (6, 1)]:
+        allc = [(g, pv) for g in L.all_grids(h, w, [0, 1]) for pv in pivots(h, w)]
+        for (g, pv) in L.sample(rng, allc, 400 if th else 40):
+            yield {"h": h, "w": w, "grid": g, "pivot": pv}
+    wide = [0, 1, 2, -1]
+    for (h, w) in [(1, 1), (1, 2), (2, 1)]:
+        for g in L.all_grids(h, w, wide):
+            for pv in pivots(h, w):
+                yield {"h": h, "w": w, "grid": g, "pivot": pv}
+    for g in L.sample(rng, L.all_grids(2, 2, wide), 200 if th else 40):
+        yield {"h": 2, "w": 2, "grid": g, "pivot": rng.choice(pivots(2, 2))}
+    far = [0, 0, 0, 1, 1, 2, -1, 7, -5]
+    for (h, w) in [(3, 3), (2, 4), (4, 2), (2, 5), (5, 2), (3, 4), (4, 3), (4, 4), (3, 6), (6, 3), (5, 5), (4, 6),
+                   (6, 5), (7, 7), (1, 7), (7, 1), (1, 9), (8, 1), (2, 7), (7, 2)]:
+        rim = [[0, 0], [0, w - 1], [h - 1, 0], [h - 1, w - 1], [rng.randrange(h), rng.randrange(w)]]
+        for p in [0.9, 0.6] * (3 if th else 1):
+            yield {"h": h, "w": w, "grid": L.random_grid(rng, h, w, [0, 1], p), "pivot": rng.choice(rim)}
+        yield {"h": h, "w": w, "grid": [[rng.choice(far) for _ in range(w)] for _ in range(h)],
+               "pivot": [rng.randrange(h), rng.randrange(w)]}
+    # boards without cells
+    for (h, w) in [(0, 0), (0, 1), (1, 0), (0, 3), (3, 0), (0, 6), (5, 0), (-1, 0), (0, -1), (-1, 2), (2, -1), (-3, 1),
+                   (1, -2), (-2, 0), (0, -4), (-1, -1), (-1, -4), (-2, -2), (-3, -1)]:
+        for pv in [[0, 0], [-1, -1], [1, 2]]:
+            yield {"h": h, "w": w, "grid": [[] for _ in range(max(h, 0))], "pivot": pv}
+    # the pivot outside the board
+    for (h, w) in [(1, 1), (1, 3), (2, 2), (3, 2), (4, 5)]:
+        g = L.random_grid(rng, h, w, [0, 1], 0.7)
+        for pv in [[h, 0], [0, w], [h, w], [h + 2, 0], [0, w + 3], [-1, 0], [0, -1], [-1, -1], [-h, 0], [0, -w], [-h, -w],
+                   [-h - 1, 0], [0, -w - 1], [-h - 1, -w - 1], [h - 1, -1], [-1, w - 1], [-h - 3, w - 1], [h, -1], [-1, w]]:
+            yield {"h": h, "w": w, "grid": g, "pivot": pv}
+    # trailing cells / rows of `blocked` missing
+    for (h, w) in [(1, 1), (1, 3), (2, 2), (3, 2), (4, 4)]:
+        g = L.random_grid(rng, h, w, [0, 1], 0.5)
+        for pv in [[h - 1, w - 1], [0, 0], [h - 1, 0], [-1, -1]]:
+            yield {"h": h, "w": w, "grid": g[:-1] + [g[-1][:-1]], "pivot": pv}
+            yield {"h": h, "w": w, "grid": g[:-1], "pivot": pv}
+            yield {"h": h, "w": w, "grid": [], "pivot": pv}
